@@ -644,6 +644,10 @@ impl<'tcx> Cx<'tcx> {
             ("arg_count", J::n(body.arg_count)),
             ("ret_ty", J::s(self.ty_s(body.return_ty()))),
         ];
+        if matches!(kind, DefKind::Fn | DefKind::AssocFn) {
+            let v = tcx.visibility(did);
+            f.push(("vis", J::s(if v.is_public() { "pub" } else { "restricted" })));
+        }
         let (_, mac, _) = span_info(tcx, body.span);
         f.push(("mac", J::opt(mac.map(J::s))));
         f.extend(ctx);
